@@ -27,13 +27,18 @@ var pkgPaths = map[string]string{
 	"controller": repoPrefix + "/pkg/controller",
 	"aws":        repoPrefix + "/pkg/cloudprovider/aws",
 	"k8s":        repoPrefix + "/pkg/k8s",
+	"cmd":        repoPrefix + "/cmd",
 }
 
 var pkgDirs = map[string]string{
 	"controller": "pkg/controller",
 	"aws":        "pkg/cloudprovider/aws",
 	"k8s":        "pkg/k8s",
+	"cmd":        "cmd",
 }
+
+// package clause of the harness files (cmd is package main)
+var pkgNames = map[string]string{"cmd": "main"}
 
 type jobSpec struct {
 	Pkg        string  `json:"pkg"`
@@ -134,6 +139,9 @@ func buildOverlay(scratch string) (map[string][]byte, map[string]string, error) 
 			continue
 		}
 		pkgName := short
+		if n, ok := pkgNames[short]; ok {
+			pkgName = n
+		}
 		for _, t := range []struct{ tmpl, out string }{
 			{"rt.go.tmpl", "zz_verif_rt.go"},
 			{"replay_test.go.tmpl", "zz_verif_replay_test.go"},
